@@ -36,12 +36,13 @@ Definition KEYBOARD_INTERRUPT : text := txt "KeyboardInterrupt".
 Definition EXC_STOP : Z := 1%Z.                   (* consts.EXC_STOP_ITERATION *)
 
 (* ---- sender side ---- *)
-Record obj := { o_val : pyval; o_repr : text }.
+Record obj := { o_val : pyval; o_repr : text; o_callable : bool }.   (* brine view, repr(x), callable(x) *)
 Inductive clsid := Builtin (name : text) | Custom (modname clsname : text).
 Record exc := { e_cls : clsid; e_args : list obj; e_dir : list (text * option obj) }.
 Record sflags := { incl_tb : bool; incl_ver : bool; prop_sysexit : bool; prop_kbdint : bool }.
 (* generated fact: does dump take the StopIteration fast path only for an instance without args? *)
-Record vparams := { fast_noargs_only : bool }.
+(* second generated fact: does dump leave out public attributes whose value is callable (methods such as add_note)? *)
+Record vparams := { fast_noargs_only : bool; skip_callables : bool }.
 
 Definition clsid_eqb (a b : clsid) : bool :=
   match a, b with
@@ -60,16 +61,16 @@ Definition is_private (n : text) : bool := match n with c :: _ => c =? 95 | [] =
 Definition skipped (n : text) : bool := is_private n || existsb (text_eqb n) IGNORED_ATTRS.
 
 (* the [for name in dir(val)] loop *)
-Fixpoint walk_dir (args : list obj) (d : list (text * option obj)) : list pyval * list (text * pyval) :=
+Fixpoint walk_dir (skipc : bool) (args : list obj) (d : list (text * option obj)) : list pyval * list (text * pyval) :=
   match d with
   | [] => ([], [])
   | (n, ov) :: d' =>
-      let '(a, t) := walk_dir args d' in
+      let '(a, t) := walk_dir skipc args d' in
       if text_eqb n ARGS then (map norm args ++ a, t)
       else if skipped n then (a, t)
       else match ov with
            | None => (a, t)                       (* getattr raised AttributeError: skipped *)
-           | Some o => (a, (n, norm o) :: t)
+           | Some o => if skipc && o_callable o then (a, t) else (a, (n, norm o) :: t)
            end
   end.
 
@@ -86,7 +87,7 @@ Definition tb_field (fS : sflags) (tb : text) : pyval := PStr (if incl_tb fS the
    [ver] = version.version_string, [tb] = "".join(traceback.format_exception(..)) *)
 Definition vdump (P : vparams) (fS : sflags) (ver tb : text) (e : exc) : pyval :=
   if fast_taken P e then PInt EXC_STOP else
-  let '(args, attrs) := walk_dir (e_args e) (e_dir e) in
+  let '(args, attrs) := walk_dir (skip_callables P) (e_args e) (e_dir e) in
   let '(m, n) := cls_key (e_cls e) in
   PTuple [PTuple [PStr m; PStr n]; PTuple args;
           PTuple (map attr_pair (attrs ++ [version_attr fS ver])); tb_field fS tb].
@@ -330,18 +331,28 @@ Definition vload (M : lookup_mode) (fR : rflags) (E : env) (val : pyval) : list 
    still propagates) or it escapes _dispatch with the callback left registered *)
 Inductive delivered := ToRequest (r : lres) | FailsRequest (e : exn) | Escapes (e : exn) | DUnmodelled.
 Definition is_eof (e : exn) : bool := match e with EOFError => true | _ => false end.
-Definition dispatch_exception (delivers : bool) (r : result lres) : delivered :=
+(* vinegar.load raises: before an object exists ([Raise]) or while filling it in ([Fail]) *)
+Definition load_failure (r : result lres) : option exn :=
   match r with
-  | Ok l => ToRequest l
-  | Raise e => if delivers && negb (is_eof e) then FailsRequest e else Escapes e
-  | _ => DUnmodelled
+  | Raise e => Some e
+  | Ok (LExc _ _ _ (Fail e)) => Some e
+  | _ => None
+  end.
+Definition dispatch_exception (delivers : bool) (r : result lres) : delivered :=
+  match load_failure r, r with
+  | Some e, _ => if delivers && negb (is_eof e) then FailsRequest e else Escapes e
+  | None, Ok l => ToRequest l
+  | None, _ => DUnmodelled
   end.
 
 (* ---- harness interface ---- *)
 Definition text_of_sx (x : sx) : text := map sx_n (sx_l x).
 Definition sx_of_text (t : text) : sx := SL (map sN t).
 Definition obj_of_sx (x : sx) : obj :=
-  match x with SL [v; r] => {| o_val := pv_of_sx v; o_repr := text_of_sx r |} | _ => {| o_val := POther 999; o_repr := [] |} end.
+  match x with
+  | SL [v; r; c] => {| o_val := pv_of_sx v; o_repr := text_of_sx r; o_callable := sx_bool c |}
+  | _ => {| o_val := POther 999; o_repr := []; o_callable := false |}
+  end.
 Definition clsid_of_sx (x : sx) : clsid :=
   match x with
   | SL [SI 0%Z; n] => Builtin (text_of_sx n)
@@ -408,11 +419,16 @@ Definition sx_of_lres (r : lres) : sx :=
                             SL (map (fun nv => SL [sx_of_pv (fst nv); sx_of_pv (snd nv)]) sets); sx_of_status st]
   end.
 
+Definition vparams_of_sx (x : sx) : vparams :=
+  match x with
+  | SL [a; b] => {| fast_noargs_only := sx_bool a; skip_callables := sx_bool b |}
+  | _ => {| fast_noargs_only := sx_bool x; skip_callables := false |}
+  end.
 Definition run_vinegar (x : sx) : sx :=
   match x with
   | SL [op; p; f; ver; tb; e] =>
       if is_tag "serve" op then
-        match serve_exc {| fast_noargs_only := sx_bool p |} (sflags_of_sx f) (text_of_sx ver) (text_of_sx tb) (exc_of_sx e) with
+        match serve_exc (vparams_of_sx p) (sflags_of_sx f) (text_of_sx ver) (text_of_sx tb) (exc_of_sx e) with
         | Routed => SL [SS "routed"]
         | Sent v => SL [SS "sent"; sx_of_pv v]
         end
